@@ -362,14 +362,14 @@ Record region := mkR {
   r_known : list (list iv);                    (* keys of known_isoforms_in_graph as computed by the implementation *)
   r_threads : list (list iv * list iv);        (* (corrected_introns of a read of a full-length path, intron part of that path) *)
   r_touched : list iv }.                       (* keys re-created in clustered_introns (count 0) by defaultdict look-ups of attach_terminal_positions:
-                                                  `clustered_introns[i] for i in outgoing_edges[intron]` with a stale edge to a removed vertex *)
+                                                  `clustered_introns[i] for i in outgoing_edges[intron] / incoming_edges[intron]` with a stale edge to a removed vertex *)
 Definition endpoints (E : list (iv * iv)) : list iv := map fst E ++ map snd E.
 
 Definition region_check (r : region) : bool :=
   let '(V, M, D) := r_final r in
   match run (init (r_reads r)) (r_ops r) with
   | Some s => is_nil (pend s) && simplifiedb s && same_set V (vert s ++ r_touched r) && same_set2 M (smap s) && same_set D (disc s) &&
-              subset (r_touched r) (endpoints (edges s)) &&
+              subset (r_touched r) (vert s ++ keys (smap s) ++ disc s) &&      (* a re-created key is an intron the system has seen: removed (discarded / collapsed) or present *)
               same_chains (known_paths s (r_refs r)) (r_known r) &&
               forallb (fun t => match thread s (fst t) with Some p => chain_eqb p (snd t) | None => false end) (r_threads r)
   | None => false
